@@ -147,7 +147,8 @@ class Printer(PrinterBase):
         return f"{typ} {var} = {value};"
 
     def make_constant(self, like, value):
-        return f"ScalarLike({like.ref}, {value})"
+        # print the reference operand through the printer so that it is bound before this use
+        return f"ScalarLike({self.tostring(like)}, {value})"
 
     def make_argument(self, arg):
         typ = self.get_type(arg)
